@@ -34,7 +34,9 @@ BOUNDS_TEXT = ("two keys, each initially absent or present; <= ops operations fr
                "tier also explores values larger than the buffer, which are written through), every "
                "written value distinguishable from every other; crash at every filesystem step 0..steps (more "
                "than any run makes) or no crash; torn write of every length; optional second crash inside the "
-               "recovery run by DirDBM.__init__ on reopen; then a final clean reopen")
+               "recovery run by DirDBM.__init__ on reopen; then a final clean reopen.  interrupt_history: 1..ops "
+               "operations, one survived interruption at any temp-file create/truncate/write step (torn write of "
+               "every length), live view of the same object checked, then a clean reopen")
 OUTSIDE = ["more than two keys / longer histories",
            "value *content*: neither DirDBM nor FilePath inspects a value (any attempt raises in the harness); "
            "two different writes carrying equal bytes are not modelled as equal (the oracle is only stricter "
@@ -52,6 +54,14 @@ ASSUMPTIONS = ["fake filesystem contract: rename/remove/mkdir are atomic; a cras
                "file objects are buffered as in CPython (8192 byte buffer; value lengths are unbounded, so both "
                "the buffered and the write-through case are explored): data reaches the disk at flush/close or "
                "when it no longer fits; a crash loses unflushed buffers and may tear the flush in progress",
+               "interrupt_history models an interruption the application SURVIVES: one non-Exception "
+               "BaseException (KeyboardInterrupt-like, defined in the harness) is raised by the filesystem call "
+               "that creates, truncates or writes the temporary file (the window DirDBM.__setitem__ protects "
+               "with its cleanup handler; a write leaves a prefix as for a crash); the filesystem keeps working, "
+               "the harness catches the exception and goes on with the same DirDBM object.  An interruption "
+               "arriving between the completed temporary file and the remove/rename that publishes it is NOT "
+               "injected: __setitem__ has no handler there and the live directory then shows the .rpl file "
+               "until the next reopen",
                "under the solver a value is an opaque span (fakefs.Rope: value number + symbolic length; a torn "
                "write stores a shorter span of the same value; content access raises) and the name `bytes` "
                "inside twisted.persisted.dirdbm is bound to a class that compares equal to both bytes and Rope "
@@ -201,6 +211,116 @@ def crash_history(ops: List[int], na: int, nb: int, nc: int, ni: int, nj: int, i
         return _check(fs, db2, model, pending)
 
 
+class _Interrupt(BaseException):
+    """a KeyboardInterrupt-like interruption that the application catches and survives"""
+
+
+def _live_ok(fs, db, model, amb):
+    """the SAME database object after a survived interruption: amb = (key index, old, new) or None"""
+    present = []
+    for i in (0, 1):
+        actual = _get(db, K[i])
+        if amb is not None and amb[0] == i:
+            if actual != amb[1] and actual != amb[2]:
+                return False
+        elif actual != model[i]:
+            return False
+        if (K[i] in db) != (actual is not None):
+            return False
+        if actual is not None:
+            present.append((K[i], actual))
+    if sorted(db.keys()) != [k for k, _ in present]:
+        return False
+    if len(db) != len(present):
+        return False
+    items = sorted((k, _canon(v)) for k, v in db.items())       # must not raise on a temp name
+    if items != present:
+        return False
+    want = sorted(db._encode(k).decode("ascii") for k, _ in present)
+    return fs.ls("/db") == want
+
+
+def interrupt_history(ops: List[int], na: int, nb: int, nc: int, ni: int, nj: int, init: int, int_at: int,
+                      cut: int) -> bool:
+    """
+    pre: 1 <= len(ops) <= B['ops'] and all(0 <= o <= 3 for o in ops)
+    pre: na >= 0 and nb >= 0 and nc >= 0 and ni >= 0 and nj >= 0 and cut >= 0
+    pre: B['maxlen'] is None or (na <= B['maxlen'] and nb <= B['maxlen'] and nc <= B['maxlen'] and ni <= B['maxlen'] and nj <= B['maxlen'])
+    pre: 0 <= init <= 3 and 0 <= int_at <= B['steps']
+    post: _
+    """
+    fs = FakeFS(empty=Rope() if SYM else b"")
+    lens = [na, nb, nc]
+    with installed(fs, _dirdbm, _filepath, extra=_extra()):
+        db = _dirdbm.DirDBM("/db")
+        model = [None, None]
+        if init == 1 or init == 3:
+            db[K[0]] = _mk(3, ni)
+            model[0] = _canon(_mk(3, ni))
+        if init >= 2:
+            db[K[1]] = _mk(4, nj)
+            model[1] = _canon(_mk(4, nj))
+        fs.arm(-1, cut)
+        fs.arm_interrupt(int_at, _Interrupt)
+        amb = None
+        for i in range(len(ops)):
+            op = ops[i]
+            ki = 1 if (op == 1 or op == 3) else 0
+            new = _canon(_mk(i, lens[i])) if op < 2 else None
+            fired = fs.interrupted
+            try:
+                if op < 2:
+                    db[K[ki]] = _mk(i, lens[i])
+                else:
+                    try:
+                        del db[K[ki]]
+                    except KeyError:
+                        if amb is not None and amb[0] == ki:
+                            if amb[1] is not None and amb[2] is not None:
+                                return False
+                        elif model[ki] is not None:
+                            return False
+            except _Interrupt:
+                cover("interrupted")
+                amb = (ki, model[ki], new)
+                continue
+            except OSError:
+                # the cleanup handler itself failed (nothing to remove) while handling the interruption
+                if fired or not fs.interrupted:
+                    return False
+                cover("interrupted")
+                amb = (ki, model[ki], new)
+                continue
+            model[ki] = new
+            if amb is not None and amb[0] == ki:
+                amb = None
+        if fs.crashed:
+            return False
+        if amb is not None:
+            cover("live_amb")
+        if not _live_ok(fs, db, model, amb):
+            return False
+        cover()
+        # and the usual check after a clean restart
+        fs.reboot()
+        db2 = _dirdbm.DirDBM("/db")
+        return _check(fs, db2, model, amb)
+
+
+def _shards_int(tier):
+    out = []
+    for init in range(4):
+        for c in range(4):
+            first = ("init == %d" % init, "ops[0] == %d" % c)
+            if c >= 2 and init != 3:
+                out.append(first)
+                continue
+            out.append(first + ("len(ops) == 1 or ops[1] == 0",))
+            out.append(first + ("len(ops) >= 2 and ops[1] == 1",))
+            out.append(first + ("len(ops) >= 2 and ops[1] >= 2",))
+    return out
+
+
 def _shards(tier):
     out = []
     for init in range(4):
@@ -217,9 +337,15 @@ def _shards(tier):
 HARNESSES = [
     H(crash_history, shards=_shards, labels=("end", "crashed", "crash2", "nocrash"),
       timeout={"quick": 150, "thorough": 900}),
+    H(interrupt_history, shards=_shards_int, labels=("end", "interrupted", "live_amb"),
+      timeout={"quick": 150, "thorough": 900}),
 ]
 
 VECTORS = {
+    "interrupt_history": [
+        ([0, 1], 2, 1, 0, 1, 1, 3, 1, 1), ([0], 2, 0, 0, 1, 1, 1, 0, 0), ([1, 3], 2, 0, 0, 1, 1, 0, 1, 1),
+        ([0, 2], 2, 0, 0, 1, 1, 1, 1, 1), ([0, 0], 2, 3, 0, 1, 1, 1, 5, 2), ([2, 0], 0, 2, 0, 1, 1, 3, 2, 0),
+    ],
     "crash_history": [
         ([0, 1], 1, 1, 0, 1, 1, 3, -1, 0, -1),
         ([0, 0], 1, 2, 0, 1, 1, 1, 2, 1, -1),     # crash after the .rpl is complete
